@@ -135,7 +135,13 @@ class DeserializationRecursiveChecker(
 class SerializationRecursiveChecker(
     SerializationVisitor, SerializationObjectVisitor, RecursiveChecker[Serialization]
 ):
-    pass
+    def object(self, tp: AnyType, fields: Sequence[ObjectField]):
+        super().object(tp, fields)
+        # a type can be recursive through its serialized methods only
+        from apischema.serialization.serialized_methods import get_serialized_methods
+
+        for serialized, types in get_serialized_methods(tp):
+            self.visit_with_conv(types["return"], serialized.conversion)
 
 
 @cache  # use @cache for reset
